@@ -181,6 +181,8 @@ pub fn tx_monitors(h: &Hist, ms: &mut MonState, b: &Obs, line: &str, res: &str, 
         return;
     }
     let Some(tx) = parse_tx(line) else { return };
+    // a quote is only meaningful for the swap it was taken for
+    let quote = ms.quote.take();
     // C20: a rejected message leaves no trace
     if !ok {
         out.push(format!("mon_unchanged {}", (a.text == b.text) as u8));
@@ -308,7 +310,7 @@ pub fn tx_monitors(h: &Hist, ms: &mut MonState, b: &Obs, line: &str, res: &str, 
                     out.push(format!("mon_ss_quote {} {} {} {} {}", pool_str(&pb2), offer_d, offer, ask_d, gross));
                     out.push(format!("mon_ss_swap {} {} {} {} {} {}", pool_str(&pb2), offer_d, offer, ask_d, gross, ret + pf + bf));
                 }
-                if let Some(q) = ms.quote.take() {
+                if let Some(q) = quote {
                     out.push(format!("mon_quote {} {} {} {} {} {} {} {} {} {}", q.0, q.1, q.2, q.3, q.4, ret, pf, sf, bf, ef));
                 }
             }
